@@ -35,8 +35,29 @@ def theorem_names(vfile):
 
 
 def check_proofs(pid, log):
+    """all theorem files of a property: Properties_<pid>.v and Properties_<pid>[a-z].v (later additions)"""
+    import glob
+    targets = sorted(os.path.basename(f)[:-2] for f in glob.glob(os.path.join(COQ, 'Properties_%s*.v' % pid))
+                     if re.fullmatch(r'Properties_%s[a-z]?\.v' % pid, os.path.basename(f)))
+    if not targets:
+        return dict(obligations=0, discharged=0, names=[], failed=[], assumptions=[], ok=False, detail='no theorem file')
+    tot = None
+    for t in targets:
+        r = check_proofs_file(t, log)
+        if tot is None:
+            tot = r
+        else:
+            for k in ('obligations', 'discharged'):
+                tot[k] += r[k]
+            for k in ('names', 'failed', 'assumptions'):
+                tot[k] += r[k]
+            tot['ok'] = tot['ok'] and r['ok']
+            tot['detail'] = (tot['detail'] + '\n' + r['detail']).strip()
+    return tot
+
+
+def check_proofs_file(target, log):
     """returns dict(obligations, discharged, names, failed, assumptions, ok, detail)"""
-    target = 'Properties_%s' % pid
     vfile = os.path.join(COQ, target + '.v')
     res = dict(obligations=0, discharged=0, names=[], failed=[], assumptions=[], ok=False, detail='')
     if not os.path.exists(vfile):
